@@ -45,14 +45,21 @@ def Iter1.nextBack (it : Iter1 α) : Option α × Iter1 α :=
   if it.indexBack ≤ it.index then (none, it)
   else (some (it.steps.value (it.indexBack - 1)), { it with indexBack := it.indexBack - 1 })
 
-/-- `ExactSizeIterator::len` of `Iterator1D` as coded: the *total* step count. -/
-def Iter1.len (it : Iter1 α) : Nat := it.steps.n
+/-- `ExactSizeIterator::len` of `Iterator1D` (after the `fix:` commit 3d5ac37: the remaining items;
+before it the *total* step count, whatever had been consumed) -/
+def Iter1.len (it : Iter1 α) : Nat := it.indexBack - it.index
 
 /-- drain an iterator following a script of front (`false`) / back (`true`) pulls -/
 def Iter1.drain (it : Iter1 α) : List Bool → List (Option α)
   | [] => []
   | false :: r => let (v, it') := it.next; v :: Iter1.drain it' r
   | true :: r => let (v, it') := it.nextBack; v :: Iter1.drain it' r
+
+/-- `len()` reported after each pull of a script (front `false` / back `true`) -/
+def Iter1.drainLens (it : Iter1 α) : List Bool → List Nat
+  | [] => []
+  | false :: r => let it' := it.next.2; it'.len :: Iter1.drainLens it' r
+  | true :: r => let it' := it.nextBack.2; it'.len :: Iter1.drainLens it' r
 
 /-- `math::lerp` -/
 def lerp (a b t : α) : α := a * ((1.0 : α) - t) + b * t
@@ -100,12 +107,18 @@ def Iter2.nextBack (it : Iter2 α) : Option (α × α) × Iter2 α :=
   if it.indexBack ≤ it.index then (none, it)
   else (some (it.steps.value (it.indexBack - 1)), { it with indexBack := it.indexBack - 1 })
 
-def Iter2.len (it : Iter2 α) : Nat := it.hi - it.lo
+/-- `ExactSizeIterator::len` of `Iterator2D` (after 3d5ac37: remaining items; before: `hi − lo`) -/
+def Iter2.len (it : Iter2 α) : Nat := it.indexBack - it.index
 
 def Iter2.drain (it : Iter2 α) : List Bool → List (Option (α × α))
   | [] => []
   | false :: r => let (v, it') := it.next; v :: Iter2.drain it' r
   | true :: r => let (v, it') := it.nextBack; v :: Iter2.drain it' r
+
+def Iter2.drainLens (it : Iter2 α) : List Bool → List Nat
+  | [] => []
+  | false :: r => let it' := it.next.2; it'.len :: Iter2.drainLens it' r
+  | true :: r => let it' := it.nextBack.2; it'.len :: Iter2.drainLens it' r
 
 /-! ### rayon producers -/
 
